@@ -82,7 +82,9 @@ class Island(EvolutionaryOptimizer):
         best : chromosomes
             The chromosomes with the lowest fitness value
         """
-        if self.generational_age == 0:
+        if self.generational_age == 0 or not all(
+            indv.fit_set for indv in self.population
+        ):
             self.evaluate_population()
         best = self.population[0]
         for indv in self.population:
@@ -121,7 +123,9 @@ class Island(EvolutionaryOptimizer):
         return self._ea.diagnostics
 
     def _get_potential_hof_members(self):
-        if self.generational_age == 0:
+        if self.generational_age == 0 or not all(
+            indv.fit_set for indv in self.population
+        ):
             self.evaluate_population()
         return self.population
 
